@@ -1,6 +1,6 @@
 (** C09 — the buffered adapters never exceed their limit and keep it saturated *)
 From FB Require Import Base Syntax World SlotMap Fub Ordered Adapters Step
-  WorldProofs FubProofs UnboundedProofs AdaptersProofs StepProofs Reach SaturationProofs LedgerProofs TokenLedger UpstreamLedger BackpressureLog.
+  WorldProofs FubProofs UnboundedProofs AdaptersProofs StepProofs Reach SaturationProofs LedgerProofs TokenLedger UpstreamLedger BackpressureLog BackpressureFec.
 
 (** in every reachable state of every history: running <= pulled-but-unyielded <= n *)
 Theorem C09_limit_respected :
@@ -67,3 +67,13 @@ Theorem C09_fewer_than_n_unfinished_at_every_pull :
   npull pre < p_cap p + nprodc pre.
 Proof. exact pulls_only_while_fewer_than_n_unfinished. Qed.
 Print Assumptions C09_fewer_than_n_unfinished_at_every_pull.
+
+(** the same for for_each_concurrent(n, f), through every iteration of its pull-then-poll loop *)
+Theorem C09_for_each_fewer_than_n_unfinished_at_every_pull :
+  forall (P : params), params_ok P ->
+  forall (p : cparams) (inits : list (N * script)) (ups : list upstep) (rest : list op)
+         (pre : list event) (c : N) (post : list event),
+  hist_of P (OBuild TFEC p inits ups :: rest) = pre ++ EUpPoll (UAItem c) :: post ->
+  npull pre < p_cap p + nprodc pre.
+Proof. exact fec_pulls_only_while_fewer_than_n_unfinished. Qed.
+Print Assumptions C09_for_each_fewer_than_n_unfinished_at_every_pull.
